@@ -73,6 +73,13 @@ Definition py_split_offsets (sep : str) (maxsplit : Z) (s : str) : list (nat * n
 Definition py_split_texts (sep : str) (maxsplit : Z) (s : str) : list str :=
   map (fun ol => str_slice s (fst ol) (fst ol + snd ol)) (py_split_offsets sep maxsplit s).
 
+(* str.rsplit(sep, maxsplit): the same scan over the reversed string, offsets mirrored back *)
+Definition py_rsplit_offsets (sep : str) (maxsplit : Z) (s : str) : list (nat * nat) :=
+  rev (map (fun ol => (length s - (fst ol + snd ol), snd ol))
+           (py_split_offsets (rev sep) maxsplit (rev s))).
+Definition py_rsplit_texts (sep : str) (maxsplit : Z) (s : str) : list str :=
+  map (fun ol => str_slice s (fst ol) (fst ol + snd ol)) (py_rsplit_offsets sep maxsplit s).
+
 (* ---------- sanity examples ("ab", "aa" as separators; " x" as chars) ---------- *)
 Local Definition S_ (x : String.string) : str := str_of_string x.
 Import String.StringSyntax.
@@ -93,6 +100,8 @@ Example ex_split_aa : py_split_texts (S_ "aa") (-1) (S_ "aaaa") = [[]; []; []]. 
 Example ex_split_aaa : py_split_texts (S_ "aa") (-1) (S_ "aaa") = [[]; S_ "a"]. Proof. reflexivity. Qed.
 Example ex_split_ends : py_split_texts (S_ ",") (-1) (S_ ",a,,b,") = [[]; S_ "a"; []; S_ "b"; []]. Proof. reflexivity. Qed.
 Example ex_split_max : py_split_texts (S_ ",") 2 (S_ ",a,,b,") = [[]; S_ "a"; S_ ",b,"]. Proof. reflexivity. Qed.
+Example ex_rsplit_max : py_rsplit_texts (S_ ",") 2 (S_ ",a,,b,") = [S_ ",a,"; S_ "b"; []]. Proof. reflexivity. Qed.
+Example ex_rsplit_aaa : py_rsplit_texts (S_ "aa") (-1) (S_ "aaa") = [S_ "a"; []]. Proof. reflexivity. Qed.
 Example ex_split_offs : py_split_offsets (S_ ", ") (-1) (S_ "a, bc, d") = [(0, 1); (3, 2); (7, 1)]. Proof. reflexivity. Qed.
 
 (* ---------- what the definitions above mean, in terms of occurrences ---------- *)
@@ -178,3 +187,7 @@ Proof.
       * intros [|i] Hi; [apply (proj1 (occurs_at_0 _ _)) in Hi; congruence|].
         apply (proj1 (occurs_at_S _ _ _ _)) in Hi. now apply IH in Hi.
 Qed.
+
+Print Assumptions py_lstrip_spec.
+Print Assumptions cut_first_spec.
+Print Assumptions cut_last_spec.
